@@ -75,7 +75,7 @@ FdtEv(ss, now) ==
    c |-> <<c.files, c.t, c.complete>>,
    files |-> [i \in 1..Len(fs) |->
                LET ob == Objs[fs[i]] IN
-               [toi |-> "1", o |-> fs[i], loc |-> "l", clen |-> ob.clen, tlen |-> ob.L, type |-> "t", cenc |-> 0, md5 |-> "m",
+               [toi |-> "1", o |-> fs[i], loc |-> "l", clen |-> ob.clen, tlen |-> ob.L, clenx |-> "", tlenx |-> "", type |-> "t", cenc |-> 0, md5 |-> "m",
                 oti |-> [enc |-> ob.scheme, inst |-> 0, B |-> ob.B, E |-> ob.E, maxn |-> ob.B + ob.par, Z |-> N(ob.L, ob.E, ob.B), N |-> 1, Al |-> 1],
                 cache |-> <<"none", 0>>, etag |-> "", groups |-> <<>>]]]
 
